@@ -90,3 +90,8 @@ func VerifFireResendTimer(ep tcpip.Endpoint) (armed bool, d time.Duration) {
 	e.snd.resendWaker.Assert()
 	return true, d
 }
+
+// verifNotIdle: the restart window of RFC 5681 section 4.1 (cwnd back to the initial window when nothing has been
+// sent for longer than the retransmission timeout) depends on the wall clock; a stack that is stepped by a harness
+// is never idle in that sense, however long a step takes on a loaded machine.
+func (s *sender) verifNotIdle() { s.lastSendTime = time.Now() }
